@@ -233,8 +233,11 @@ fn sealed_plain_case(acc: &mut Acc, r: &mut Rng) {
     let tok = seal(&key, &plain, (r.u64() as u128) << 64 | r.u64() as u128);
     let want = parse_plain(&plain);
     let Some(got) = q_token_decode(acc, &key, &tok, "Token::decode (authentic token, arbitrary plaintext)") else { return };
+    // a seconds value `SystemTime` cannot hold has no decoded value: only "rejected" is acceptable
+    let representable = want.as_ref().is_some_and(|(_, secs)| std::time::UNIX_EPOCH.checked_add(std::time::Duration::from_secs(*secs)).is_some());
     match (&got, &want) {
         (None, None) => acc.inc("token.sealed_plain_rejected_by_both"),
+        (None, Some(_)) if !representable => acc.inc("token.sealed_plain_unrepresentable_time_rejected"),
         (Some((p, _)), Some((w, _))) if p == w => acc.inc("token.sealed_plain_agree"),
         _ => {
             acc.viol(format!("token: authentic token with plaintext {} decodes to {got:?}, the independent parser says {want:?}", hex(&plain)));
